@@ -7,6 +7,7 @@ def handle (line : String) : String :=
   match line.trimAscii.toString.splitOn " " with
   | "S" :: ops :: _ => runSent ops
   | "H" :: cfg :: preds :: ops :: _ => runH cfg preds ops
+  | "F" :: cfg :: m :: pt :: h :: _ => runF cfg m pt h
   | "B" :: r => runBin ("B" :: r)
   | "RS" :: r => runBin ("RS" :: r)
   | "RX" :: r => runBin ("RX" :: r)
